@@ -98,7 +98,7 @@ def bump_typed(rng, d):
 
 # ---------------------------------------------------------------- generation
 def gen_program(rng, pkg, n=None, p_explicit=0.15, p_hidden=0.12, min_memento=2, p_lambda_pair=0.3, p_shadow=0.2,
-                p_init=0.3, p_ext=0.3):
+                p_init=0.3, p_ext=0.3, p_factory=0.3):
     n = n or rng.randint(3, 7)
     split = rng.randint(0, n - 1)  # nodes [0, split) live in module b, the rest in module a
     shadow = n >= 4 and rng.random() < p_shadow  # a wrapped helper of module b whose wrapper parameter is "a"
@@ -146,6 +146,22 @@ def gen_program(rng, pkg, n=None, p_explicit=0.15, p_hidden=0.12, min_memento=2,
         lambda_pair = sorted(pair)
     else:
         lambda_pair = []
+    # now and then two helpers come out of one factory: two function objects, one code object, different defaults
+    factory_pair = []
+    if n >= 4 and rng.random() < p_factory:
+        cand_f = [j for j in range(max(split, 2), n) if nodes[j]["kind"] in ("plain", "memento", "wrapped") and j not in lambda_pair
+                  and not (shadow and j == 2)]
+        if len(cand_f) >= 2:
+            lead, foll = sorted(cand_f[-2:] if rng.random() < 0.7 else rng.sample(cand_f, 2))  # late: more users above
+            dt = rng.choice([t for t in DTYPES if t not in ("none", "bool")])
+            for j in (lead, foll):
+                d = gen_typed(rng, dt)
+                nodes[j].update(kind="product", version=None, params=[["x", None], ["y", d]], kwonly=[], tconst=None,
+                                sconst=None, wrap_param=None, xconst=None)
+            while dlit(nodes[foll]["params"][1][1]) == dlit(nodes[lead]["params"][1][1]):
+                nodes[foll]["params"][1][1] = bump_typed(rng, nodes[foll]["params"][1][1])
+            nodes[foll]["of"] = lead
+            factory_pair = [lead, foll]
     # now and then the last functions of the package live in its __init__.py ...
     init_chain = None
     if n >= 4 and rng.random() < p_init:
@@ -185,6 +201,8 @@ def gen_program(rng, pkg, n=None, p_explicit=0.15, p_hidden=0.12, min_memento=2,
         if nd["kind"] == "lambda":
             nd.update(params=[["x", None]], kwonly=[], tconst=None, sconst=None, version=None)
             continue
+        if nd["kind"] == "product":
+            continue  # leaves: the body is shared by all products of the factory
         if nd["mod"] == "e" and nd["kind"] != "memento":
             continue  # plain helpers of the other package are leaves
         later = targets(nodes, i)
@@ -235,8 +253,15 @@ def gen_program(rng, pkg, n=None, p_explicit=0.15, p_hidden=0.12, min_memento=2,
         for t in (rng.choice(ext_m), rng.choice(ext_p)):
             if not any(c["t"] == t for c in nodes[u]["calls"]):
                 nodes[u]["calls"].append({"t": t, "form": rng.choice(["bare", "bare", "xattr"])})
+    if factory_pair:
+        # ... used by two different memento functions
+        users = [i for i in range(factory_pair[0]) if nodes[i]["kind"] == "memento"]
+        if len(users) >= 2:
+            for u, j in zip(rng.sample(users, 2), factory_pair):
+                if not any(c["t"] == j for c in nodes[u]["calls"]):
+                    nodes[u]["calls"].append({"t": j, "form": "bare"})
     if lambda_pair:
-        users = [i for i in range(lambda_pair[0]) if nodes[i]["kind"] != "lambda"]
+        users = [i for i in range(lambda_pair[0]) if nodes[i]["kind"] not in ("lambda", "product")]
         if users:
             u = rng.choice(users)
             for j in lambda_pair:
@@ -344,12 +369,26 @@ def call_expr(prog, nd, c, arg="x"):
     return "globals()[\"%s\"](%s)" % (t["name"], arg)  # hidden dynamic call
 
 
-def render_def(prog, i):
+def render_factory(prog, i):
+    nd = prog["nodes"][i]
+    first = ("x %s %d" % (nd["op"], nd["const"])) if not nd["swap"] else ("%d %s x" % (nd["const"], nd["op"]))
+    d = nd["params"][1][1]
+    return "\n".join(["def mk_%s(k_):" % nd["name"], "    def made(x, y=k_):", "        REC.hit('made_%s', x, y)" % nd["name"],
+                      "        r = %s" % first, "        r += %s" % duse("y", d), "        return r", "    return made", "", ""])
+
+
+def render_def(prog, i, skip_names=()):
     """Source text of one definition (decorators included)."""
     nd = prog["nodes"][i]
     if nd["kind"] == "lambda":
         first = ("x %s %d" % (nd["op"], nd["const"])) if not nd["swap"] else ("%d %s x" % (nd["const"], nd["op"]))
         return "%s = lambda x: %s\n" % (nd["name"], first)
+    if nd["kind"] == "product":
+        if nd.get("of") is not None:  # a further product of the leader's factory
+            return "%s = mk_%s(%s)\n" % (nd["name"], prog["nodes"][nd["of"]]["name"], dlit(nd["params"][1][1]))
+        return render_factory(prog, i) + "".join(
+            "%s = mk_%s(%s)\n" % (o["name"], nd["name"], dlit(o["params"][1][1]))
+            for o in [nd] + [o for o in prog["nodes"] if o.get("of") == i and o["kind"] == "product" and o["name"] not in skip_names])
     ps = [p if d is None else "%s=%s" % (p, dlit(d)) for p, d in nd["params"]]
     if nd["kwonly"]:
         ps.append("*")
@@ -457,9 +496,16 @@ def render_module(prog, mod, twin=False, order=None, skip=()):
     if order is not None:
         idx = sorted(idx, key=lambda i: order.index(i))
     for i in idx:
-        if prog["nodes"][i]["name"] in skip:
+        nd = prog["nodes"][i]
+        if nd["kind"] == "product" and nd.get("of") is not None and prog["nodes"][nd["of"]]["kind"] == "product":
+            continue  # rendered with the factory of its leader
+        if nd["name"] in skip:
+            if nd["kind"] == "product":  # the factory stays (further products may survive); the leader's own binding goes
+                parts.append(render_factory(prog, i) + "".join(
+                    "%s = mk_%s(%s)\n" % (o["name"], nd["name"], dlit(o["params"][1][1]))
+                    for o in prog["nodes"] if o.get("of") == i and o["kind"] == "product" and o["name"] not in skip) + "\n")
             continue
-        parts.append(render_def(prog, i) + "\n")
+        parts.append(render_def(prog, i, skip) + "\n")
     for al in prog["aliases"]:
         if al["mod"] == mod and prog["nodes"][al["target"]]["name"] not in skip:
             parts.append("%s = %s\n" % (al["name"], prog["nodes"][al["target"]]["name"]))
@@ -505,6 +551,9 @@ def cell_statements(old, new, desc, twin=False):
             for n in sorted(fn.get(src, set()) - fo.get(src, set())):
                 out.append((mod, "from %s import %s\n" % (modname(new, src, twin), n), "import " + n))
     changed = list(desc.get("changed_defs", []))
+    for i in list(changed):  # re-executing a factory re-creates all its products
+        if new["nodes"][i]["kind"] == "product" and new["nodes"][i].get("of") is None:
+            changed += [j for j, o in enumerate(new["nodes"]) if o.get("of") == i and o["kind"] == "product" and j not in changed]
     for i in changed:
         out.append((new["nodes"][i]["mod"], render_def(new, i), new["nodes"][i]["name"]))
     redefined = {(new["nodes"][i]["mod"], new["nodes"][i]["name"]) for i in changed}
@@ -557,11 +606,13 @@ def bump_explicit_above(prog, node=None, var=None):
     """User contract of explicit versions: whoever pins a version bumps it when anything beneath
     the function changes (also through hidden calls and variable reads)."""
     bumped = []
+    group = set() if node is None else {node} | {j for j, o in enumerate(prog["nodes"])
+                                                 if o.get("of") == node and o["kind"] == "product"}  # a factory's products share its body
     for i, nd in enumerate(prog["nodes"]):
         if nd["kind"] != "memento" or nd["version"] is None:
             continue
         below = reaches(prog, i) | {i}
-        hit = (node is not None and node in below) or (var is not None and any(uses_var(prog, j, var) for j in below))
+        hit = (node is not None and bool(group & below)) or (var is not None and any(uses_var(prog, j, var) for j in below))
         if hit:
             prog["serial"] += 1
             nd["version"] = "v%d" % (prog["serial"] + 1)
@@ -623,6 +674,10 @@ def apply_edit(rng, prog, kind=None, force_var=None):
     # plain helpers of the other package are outside the package scope of their callers: never edited
     cand = [i for i in range(len(nodes)) if not (nodes[i]["mod"] == "e" and nodes[i]["kind"] != "memento")]
     rng.shuffle(cand)
+    if kind in ("add_param", "add_call", "remove_call", "retarget_call"):
+        cand = [i for i in cand if nodes[i]["kind"] != "product"]  # signature and (empty) call list are the factory's
+    elif kind in ("const", "op", "swap"):
+        cand = [i for i in cand if not (nodes[i]["kind"] == "product" and nodes[i].get("of") is not None)]  # the shared body is the leader's
 
     def done(i=None, var=None, changed=None):
         desc.update({"node": i, "var": var})
